@@ -22,7 +22,7 @@ GInit == Init /\ sched = <<>>
 \* still pops it could not be followed), and it stops with the context (no scan after cancellation).
 PopOK == hs # <<>> => LET h == hs[HeadIdx(hs)] IN ~(h \in watch /\ state[h] = "enqueued" /\ now >= expireAt[h])
 GStep == \/ \E self \in Req : R(self)
-         \/ Tick \/ (Pop /\ PopOK) \/ Grant \/ Requeue
+         \/ Tick \/ (Pop /\ PopOK) \/ Grant \/ Requeue \/ Faulted
          \/ (Scan /\ ~cancelled) \/ Signal
          \/ Sh \/ Clk
 GNext == GStep /\ sched' = IF vars' = vars THEN sched ELSE Append(sched, StepRec)
